@@ -4,6 +4,7 @@ package jmespath
 
 import (
 	"math"
+	"strings"
 	"unicode/utf8"
 )
 
@@ -232,4 +233,12 @@ func specWidthAt(expr string, pos int) int {
 	}
 	_, w := utf8.DecodeRuneInString(expr[pos:])
 	return w
+}
+
+// specSpaces is the indentation of the caret line of HighlightLocation (C17).
+func specSpaces(n int) string {
+	if n < 0 {
+		return ""
+	}
+	return strings.Repeat(" ", n)
 }
